@@ -13,6 +13,9 @@ the public functions of the numeric modules are therefore wrapped (harness-side 
       alias  f(b) with b = copy(a); b *= (1+-1e-3) in place; r1 = f(b); f(p); r2 = f(copy(b))   -- cache holding a reference
       repeat r1 = f(a) directly after f(a); f(p); r2 = f(a)                -- any other dependence on the previous call
   r1 and r2 are results of the SAME argument values after different histories; they must be bit-identical.
+* dtype probe (same schedule): integer-valued arguments passed once as floats and once as Python ints / integer arrays
+  (a random subset of the arguments whose components are 0 or of magnitude >= 1, rounded to integers first) must give
+  the same result to 1e-9: the properties quantify over values, not over the numeric type a caller happens to use.
 
 An event is reported by check.py as a violation whose replay is the concrete call history.
 """
@@ -21,6 +24,7 @@ import numpy as np
 
 EVENTS = []
 HISTORY_EVENTS = []
+DTYPE_EVENTS = []
 _installed = []
 MODULES = ('xfab.tools', 'xfab.laue', 'xfab.detector', 'xfab.symmetry', 'xfab.structure')
 SKIP = {'trans_orientation', 'image_flipping'}     # return views by design; never write to their argument
@@ -28,6 +32,7 @@ SKIP = {'trans_orientation', 'image_flipping'}     # return views by design; nev
 # projection weights; readers / classes / plotting are not value functions)
 NO_PROBE = {'genhkl', 'genhkl_all', 'genhkl_base', 'genhkl_unique', 'reduce_cell', 'StructureFactor', 'multiplicity',
             'int_intensity', 'interpolate_background', 'trans_orientation', 'image_flipping'}
+NO_DTYPE = set()
 PROBE_FIRST = 6
 PROBE_EVERY = 53
 _depth = [0]
@@ -94,6 +99,85 @@ def _scale_inplace(a, s):
                 ok = _scale_inplace(x, s) or ok
         return ok
     return False
+
+
+import random as _random
+_rng = _random.Random(20240917)
+
+
+def _elig(x):
+    return isinstance(x, (float, np.floating)) and np.isfinite(x) and (x == 0 or 1 <= abs(x) < 1e15)
+
+
+def _int_variants(a):
+    """(float-typed, int-typed) integer-valued versions of argument `a`, or None when `a` is not eligible"""
+    if isinstance(a, bool):
+        return None
+    if _elig(a):
+        r = float(round(float(a)))
+        return r, int(r)
+    if isinstance(a, np.ndarray) and a.dtype.kind == 'f' and 0 < a.size <= 64 and all(_elig(x) for x in a.ravel()):
+        r = np.round(a)
+        return r, r.astype(int)
+    if isinstance(a, list) and 0 < len(a) <= 16 and all(_elig(x) for x in a):
+        r = [float(round(float(x))) for x in a]
+        return r, [int(x) for x in r]
+    return None
+
+
+def _close(r1, r2):
+    f1, f2 = _flat(r1), _flat(r2)
+    if f1 is None or f2 is None or len(f1) != len(f2):
+        return f1 is None and f2 is None
+    for x, y in zip(f1, f2):
+        if x != x and y != y:
+            continue
+        if not abs(x - y) <= 1e-12 + 1e-9 * max(abs(x), abs(y)):
+            return False
+    return True
+
+
+def _flat(r):
+    if r is None:
+        return []
+    if isinstance(r, (list, tuple)):
+        out = []
+        for x in r:
+            f = _flat(x)
+            if f is None:
+                return None
+            out += f
+        return out
+    try:
+        a = np.asarray(r)
+    except Exception:
+        return None
+    if a.dtype.kind not in 'fiubc':
+        return None
+    return [complex(v) if a.dtype.kind == 'c' else float(v) for v in a.ravel()]
+
+
+def _dtype_probe(modname, name, f, args, kw):
+    cur = copy.deepcopy(args)
+    var = [(_i, _int_variants(a)) for _i, a in enumerate(cur)]
+    var = [(i, v) for i, v in var if v is not None]
+    if not var:
+        return
+    for _ in range(3):
+        pick = [iv for iv in var if _rng.random() < 0.5] or [var[_rng.randrange(len(var))]]
+        fa, ia = list(copy.deepcopy(cur)), list(copy.deepcopy(cur))
+        for i, (vf, vi) in pick:
+            fa[i], ia[i] = copy.deepcopy(vf), copy.deepcopy(vi)
+        r1 = _call(f, copy.deepcopy(fa), kw)
+        if r1[0] != 'ok':
+            continue
+        r2 = _call(f, copy.deepcopy(ia), kw)
+        bad = r2[0] != 'ok' or not _close(r1[1], r2[1])
+        if bad and len(DTYPE_EVENTS) < 20:
+            DTYPE_EVENTS.append({'fn': '%s.%s' % (modname.split('.')[-1], name), 'int_typed_positions': [i for i, _v in pick],
+                                 'args_float': _plain(fa), 'args_int': _plain(ia), 'result_float_typed': _plain(r1[1]),
+                                 'result_int_typed': _plain(r2[1]) if r2[0] == 'ok' else 'raised ' + r2[1]})
+            return
 
 
 def _plain(x):
@@ -211,6 +295,11 @@ def _wrap(modname, name, f):
                         _probe(modname, name, f, args, kw)
                     except Exception:
                         pass
+                    try:
+                        if name not in NO_DTYPE:
+                            _dtype_probe(modname, name, f, args, kw)
+                    except Exception:
+                        pass
                     finally:
                         _depth[0] -= 1
     g.__purity_guard__ = True
@@ -255,6 +344,15 @@ def violations():
                         what='result depends on the call history, not only on the argument values (scenario "%s": the same '
                              'arguments give different results after different preceding calls)' % e['scenario'],
                         observed=e['result_after_history_a'], expected=e['result_after_history_b']))
+    for e in DTYPE_EVENTS:
+        k = (e['fn'], 'dtype')
+        if k in seen:
+            continue
+        seen.add(k)
+        out.append(dict(e, purity='dtype', known_id=None,
+                        what='integer-valued arguments give a different result when passed as ints than when passed as floats '
+                             '(argument positions %s)' % e['int_typed_positions'],
+                        observed=e['result_int_typed'], expected=e['result_float_typed']))
     return out
 
 
@@ -268,6 +366,15 @@ def replay(v):
 
     def conv(x):
         return np.array(x, float) if isinstance(x, list) and x and isinstance(x[0], list) else x
+    if v.get('purity') == 'dtype':
+        def arr(x, kind):
+            return np.array(x, dtype=kind) if isinstance(x, list) and x and isinstance(x[0], list) else x
+        fa = [arr(x, float) for x in v['args_float']]
+        ia = [arr(x, int) if i in v['int_typed_positions'] else arr(x, float) for i, x in enumerate(v['args_int'])]
+        r1, r2 = _call(f, fa, {}), _call(f, ia, {})
+        bad = r1[0] == 'ok' and (r2[0] != 'ok' or not _close(r1[1], r2[1]))
+        print('replay %s (dtype): float-typed %s | int-typed %s -> %s' % (v['fn'], _plain(r1[1]), _plain(r2[1]), 'VIOLATION' if bad else 'holds'))
+        return 1 if bad else 0
     if v.get('purity') == 'mutation':
         if v.get('all_args'):
             args = [np.array(x, float) if t == 'nd' else x for t, x in v['all_args']]
